@@ -60,7 +60,7 @@ def real_to_complex(z, axis=0):
         h[N // 2] = 2 if N % 2 else 1
 
     z = scipy.fft.ifft(scipy.fft.fft(z, axis=axis) * h[tuple(ind)], axis=axis)
-    z *= np.exp(-1j * np.pi / 2 * np.arange(N))[tuple(ind)]
+    z *= np.exp(-1j * np.pi / 2 * (np.arange(N) % 4))[tuple(ind)]
 
     # Decimate signal by factor of 2 (along axis)
     dec = [slice(None)] * z.ndim
